@@ -385,27 +385,27 @@ func truncate(limit int, s string) string {
 	// Optimistically, assume all valid UTF-8.
 	var b strings.Builder
 	count := 0
+	invalid := false
 	for i, c := range s {
-		if c != utf8.RuneError {
-			count++
-			if count > limit {
-				return s[:i]
+		if c == utf8.RuneError {
+			// Either an invalid encoding or a well-formed U+FFFD.
+			if _, size := utf8.DecodeRuneInString(s[i:]); size == 1 {
+				// Invalid encoding.
+				b.Grow(len(s) - 1)
+				_, _ = b.WriteString(s[:i])
+				s = s[i:]
+				invalid = true
+				break
 			}
-			continue
 		}
-
-		_, size := utf8.DecodeRuneInString(s[i:])
-		if size == 1 {
-			// Invalid encoding.
-			b.Grow(len(s) - 1)
-			_, _ = b.WriteString(s[:i])
-			s = s[i:]
-			break
+		count++
+		if count > limit {
+			return s[:i]
 		}
 	}
 
 	// Fast-path, no invalid input.
-	if b.Cap() == 0 {
+	if !invalid {
 		return s
 	}
 
